@@ -39,7 +39,7 @@ PROFILE = G.profile(max_bars=3, max_voices=2, max_staves=2, midbar_changes=False
                     unique_pitch_per_time=True, missing_voice_staff=False)
 
 SCORE_OPS = ["musicxml", "score_midi", "note_array", "part_note_array", "rest_array", "pianoroll", "maps", "pretty",
-             "unfold_max", "unfold_min", "iter_unfolded", "spelling", "voices", "key", "transpose", "len_index", "save_match", "nested_iter_score"]
+             "unfold_max", "unfold_min", "iter_unfolded", "spelling", "voices", "key", "transpose", "len_index", "save_match", "nested_iter_score", "setitem_on_new_score"]
 PERF_OPS = ["perf_midi", "perf_note_array", "perf_len_index", "nested_iter_perf", "loose_midi", "loose_note_array"]
 
 
@@ -246,6 +246,16 @@ class _Loose(object):
 
 
 # ------------------------------------------------------------------ the operations
+def _protocol_consistent(r):
+    """len / indexing / iteration / .parts of a Score agree (True for anything that is not a Score)."""
+    if not isinstance(r, S.Score):
+        return True
+    n = call(len, r)
+    by_index = [id(call(lambda i=i: r[i])) for i in range(n)]
+    by_iter = [id(x) for x in call(lambda: list(r))]
+    return by_index == by_iter == [id(x) for x in r.parts]
+
+
 def run_op(name, a, b, score, perf, alignment, tmp, loose=None):
     """Returns (result key, comparable result)."""
     if name == "loose_midi":
@@ -298,10 +308,16 @@ def run_op(name, a, b, score, perf, alignment, tmp, loose=None):
         return ("pretty", id(part)), (call(part.pretty), call(score.parts[0].pretty))
     if name == "unfold_max":
         r = call(S.unfold_part_maximal, score if b & 1 else part, update_ids=bool(a & 1))
-        return ("unfold_max", (b & 1) or id(part), bool(a & 1)), semantic(r)
+        return ("unfold_max", (b & 1) or id(part), bool(a & 1)), (semantic(r), _protocol_consistent(r))
     if name == "unfold_min":
         r = call(S.unfold_part_minimal, score if b & 1 else part)
-        return ("unfold_min", (b & 1) or id(part)), semantic(r)
+        return ("unfold_min", (b & 1) or id(part)), (semantic(r), _protocol_consistent(r))
+    if name == "setitem_on_new_score":
+        # assignment by index on a second Score over the same parts (the argument itself is not assigned to)
+        sc2 = call(S.Score, list(score.parts))
+        newp = S.Part("NEW", quarter_duration=1)
+        call(sc2.__setitem__, a % len(sc2.parts), newp)
+        return ("setitem_on_new_score", a % len(sc2.parts)), (None, _protocol_consistent(sc2) and call(lambda: sc2[a % len(sc2.parts)]) is newp)
     if name == "iter_unfolded":
         r = call(lambda: list(S.iter_unfolded_parts(part, update_ids=bool(a & 1))))
         return ("iter_unfolded", id(part), bool(a & 1)), [semantic(x) for x in r]
@@ -391,6 +407,9 @@ def oracle(spec):
                 else:
                     key, res = run_op(name, a, b, score, perf, alignment, tmp, loose)
                     kinds.add(name)
+                    if name in ("unfold_max", "unfold_min", "setitem_on_new_score") and not res[1]:
+                        o.add("len-indexing-iteration-disagree-after:" + name, where=where)
+                        break
                     if name.startswith("nested_iter") and res != (True, True, True):
                         o.add("nested-iteration-does-not-visit-every-pair", where=where, checks=list(res))
                         break
